@@ -111,7 +111,8 @@ func c19HdrChoices(atoms []c19HdrAtom, k int) [][]int {
 }
 
 // fields the model expects on the wire for a header map: everything except what RFC 9114 4.2
-// forbids to generate (connection-specific fields) and what `skip` names.
+// forbids to generate (connection-specific fields, TE values other than "trailers") and what
+// `skip` names.
 func c19WireFields(h http.Header, skip func(k string) bool) []c19Field {
 	keys := make([]string, 0, len(h))
 	for k := range h {
@@ -125,6 +126,9 @@ func c19WireFields(h http.Header, skip func(k string) bool) []c19Field {
 			continue
 		}
 		for _, v := range h[k] {
+			if lk == "te" && v != "trailers" {
+				continue
+			}
 			fs = append(fs, c19Field{lk, v})
 		}
 	}
@@ -373,6 +377,13 @@ func c19RunReqMsg(m c19ReqMsg) (outcome string, fail *explore.Fail) {
 	if g, w := c19RenderRequest(got), c19ModelRequest(c19ViewOf(want)); g != w {
 		return "", explore.Failf("writer-request/fields-differ:"+c19DiffTag(g, w),
 			"parse(write(request)) differs from the message\n   got  %s\n   want %s\n   emitted %v", c19Trunc(g), c19Trunc(w), c19Human(c19DecodeAll(block), false))
+	}
+	hdr, err := parseHeaders(qpack.NewDecoder().Decode(block), true, c19WriterLimit, nil)
+	explore.Must(err == nil, "parseHeaders rejects what requestFromHeaders accepted: %v", err)
+	// (parseHeaders neither joins cookies nor moves the Trailer field)
+	if g, w := c19RenderParsed(hdr), c19ModelParsed(c19ViewOf(want)); g != w {
+		return "", explore.Failf("writer-request/pseudo-or-fields-differ:"+c19DiffTag(g, w),
+			"parseHeaders(write(request)) differs from the message\n   got  %s\n   want %s", c19Trunc(g), c19Trunc(w))
 	}
 	out := class + ": round trip ok, " + strings.ToLower(m.Method)
 	if got.Proto != "HTTP/3.0" {
